@@ -393,6 +393,12 @@ def cmd_run(prop, tier):
         else:
             infra.append("%s shard %d: exit %s without a captured case\n%s" % (test, s, rc, out[-3000:]))
 
+    # a part whose cases are mostly inconclusive (environment preconditions unmet) has not checked anything
+    for test, m in merged.items():
+        inc = sum(m["inconclusive"].values())
+        if m["evaluations"] > 0 and inc * 2 > m["evaluations"]:
+            infra.append("%s: %d of %d cases inconclusive: %s" % (test, inc, m["evaluations"], dict(list(m["inconclusive"].items())[:3])))
+
     # 5. evidence
     write_evidence(prop, tier, seed, merged, violations, infra, known_keys, time.time() - t_start)
 
